@@ -28,7 +28,7 @@ from types import TracebackType
 from typing import Awaitable, Dict, List, Optional, Set, Tuple, Type, Union
 
 from ._cache import DNSCache
-from ._dns import DNSQuestion, DNSQuestionType
+from ._dns import DNSQuestion, DNSQuestionType, DNSRecord
 from ._engine import AsyncEngine
 from ._exceptions import NonUniqueNameException, NotRunningException
 from ._handlers.multicast_outgoing_queue import MulticastOutgoingQueue
@@ -466,6 +466,13 @@ class Zeroconf(QuietLogger):
         assert info.server_key is not None
         entries = self.registry.async_get_infos_server(info.server_key)
         broadcast_addresses = not bool(entries)
+        # Answers queued for earlier queries must not resurrect the service
+        # after the goodbye packets have been sent
+        withdrawn: Set[DNSRecord] = {info.dns_pointer(), info.dns_service(), info.dns_text()}
+        if broadcast_addresses:
+            withdrawn.update(info.get_address_and_nsec_records())
+        self.out_queue.async_remove_records(withdrawn)
+        self.out_delay_queue.async_remove_records(withdrawn)
         return asyncio.ensure_future(
             self._async_broadcast_service(info, _UNREGISTER_TIME, 0, broadcast_addresses)
         )
